@@ -88,6 +88,29 @@ def sweep(ctx, n):
                 inside, outside = rr < 1 - 1e-9, rr > 1 + 1e-9
             if not (np.allclose(J[inside], src.polarization) and np.all(J[outside] == 0)):
                 fails.append({"key": f"j-indicator:{cls}", "desc": "J is not polarization inside / zero outside", "replay": {"class": cls}})
+    # several bodies of the same geometry with different polarizations evaluated jointly: each J is its own polarization
+    for i in range(max(6, n // 20)):
+        nps = np.random.default_rng(rng.randrange(2**31))
+        mcls = MAGNETS[i % len(MAGNETS)]
+        proto = make(mcls, nps)
+        if mcls == "CylinderSegment":
+            r1, r2, h, p1, p2 = proto.dimension
+            c0 = np.array([(r1 + r2) / 2 * np.cos(np.radians((p1 + p2) / 2)), (r1 + r2) / 2 * np.sin(np.radians((p1 + p2) / 2)), 0.0])
+        else:
+            c0 = np.asarray(proto.vertices).mean(axis=0) if getattr(proto, "vertices", None) is not None else np.zeros(3)
+        group = [proto.copy(polarization=nps.uniform(-1, 1, 3), position=(5.0 * j, 0, 0)) for j in range(rng.choice([2, 3]))]
+        obs = np.array([c0 + (5.0 * j, 0, 0) for j in range(len(group))])
+        J = magpy.getJ(group, obs)
+        B, H = magpy.getB(group, obs), magpy.getH(group, obs)
+        done += len(obs)
+        for j, g in enumerate(group):
+            if not np.allclose(J[j, j], g.polarization, rtol=1e-12):
+                fails.append({"key": f"j-own-polarization:{mcls}", "desc": "in a joint call J inside a body is not that body's own polarization",
+                              "replay": {"class": mcls, "source_index": j, "J": J[j, j].tolist(), "polarization": np.asarray(g.polarization).tolist()}})
+                break
+            if not np.allclose(B[j, j], mu_0 * H[j, j] + g.polarization, atol=1e-9 * (np.abs(B[j, j]).max() + 1)):
+                fails.append({"key": f"bhjm-consistency-joint:{mcls}", "desc": "in a joint call B != mu0*H + polarization inside a body", "replay": {"class": mcls, "source_index": j}})
+                break
     # attribute relation under assignment histories
     attr_bad = None
     nps = np.random.default_rng(rng.randrange(2**31))
